@@ -911,7 +911,7 @@ func TestVerifC15(t *testing.T) {
 	c.Assume("a refresh is modelled as resetGatingForRefreshed(snap) followed (0-10 min later) by stamping LastRefreshTime, removal as pruneSnapsHold + Set(nil): the calls the real handlers make, without running the task graph")
 	c.Assume("the administrator's requested time is never equal to the clock reading to the nanosecond (HoldRefreshesBySystem turns a zero duration into 'forever'; with a real clock this has measure zero); set VERIF_C15_UNTIL_EQ_NOW=1 to generate it")
 	c.Assume("at the exact instant of a bound (now == first-held+48h, now == last-refresh+90d, now == requested time) a reported hold is not judged; 'more than'/'beyond' in the statement start one nanosecond later, and that is probed")
-	n := kit.Scale(300, 1500)
+	n := kit.Scale(300, 600)
 	if only := kit.OnlyCase(); only >= 0 {
 		// replay of one case: no floors
 		c.MinDistinct(0)
